@@ -23,6 +23,7 @@ LEVEL_NOTE = "date/time parsing and croniter are summarised by abstract instants
 TECHNIQUE = "abstract interpretation of timer_active_check / TimeActiveDecorator.handle_dispatch on an exhaustive finite model of instants and spec lists (truth-table comparison), who-may-call, def-use of guard inputs"
 
 TAC = "trigger.py::TrigTime.timer_active_check"
+INSTANTS = [0, 1, 2, 3, 4, 1440 + 0, 1440 + 2, 1440 + 4, 2880 + 2]
 T0 = dt.datetime(2024, 1, 1, 12, 0, 0)
 
 
@@ -33,14 +34,29 @@ def _t(i):
 def _summaries():
     def parse_date_time(interp, node, args, kwargs, cfg, out):
         tok = args[0].v if isinstance(args[0], Const) else None
-        if tok is None or not tok.startswith("t"):
+        ref = args[2].v if len(args) > 2 and isinstance(args[2], Const) and isinstance(args[2].v, dt.datetime) else None
+        if tok is None or ref is None or _resolve_tok(tok, 0) is None:
             return [(cfg, ListV([Sym(("time", repr(args[0]))), Const(False)], "tuple"))]
-        return [(cfg, ListV([Const(_t(int(tok[1:]))), Const(False)], "tuple"))]
+        # a time-only entry ("t3") denotes that time on the day of the reference instant; "d1t3" carries its own date
+        return [(cfg, ListV([Const(_t(_resolve_tok(tok, (ref - T0).days))), Const(False)], "tuple"))]
 
     def cron_match(interp, node, args, kwargs, cfg, out):
         return [(cfg, Const(isinstance(args[0], Const) and args[0].v == "yes"))]
 
     return {"cls.parse_date_time": parse_date_time, "croniter.match": cron_match, "croniter.is_valid": lambda i, n, a, k, c, o: [(c, Const(True))]}
+
+
+def _resolve_tok(tok, ref_day):
+    """Minutes since T0 denoted by a model token: 't<N>' = minute N of the reference day, 'd<K>t<N>' = minute N of day K."""
+    try:
+        if tok.startswith("d"):
+            k, n = tok[1:].split("t")
+            return int(k) * 1440 + int(n)
+        if tok.startswith("t"):
+            return ref_day * 1440 + int(tok[1:])
+    except ValueError:
+        return None
+    return None
 
 
 def _spec_matches(spec, now):
@@ -50,7 +66,8 @@ def _spec_matches(spec, now):
         m = body == "cron(yes)"
     else:
         a, b = body[6:-1].split(", ")
-        a, b = int(a[1:]), int(b[1:])
+        a = _resolve_tok(a, now // 1440)          # the start is read relative to the current instant
+        b = _resolve_tok(b, a // 1440)            # the end relative to the start (documented: "the end is relative to the start")
         m = (a <= now <= b) if a <= b else (now >= a or now <= b)
     return neg, m
 
@@ -71,7 +88,7 @@ def _run_tac(program, specs, now):
 
 def run(ctx):
     program = ctx.program
-    ranges = ["range(t1, t3)", "range(t3, t1)", "range(t2, t2)"]
+    ranges = ["range(t1, t3)", "range(t3, t1)", "range(t2, t2)", "range(d1t1, t3)", "range(d1t3, t1)"]
     atoms = ranges + ["cron(yes)", "cron(no)"]
     entries = atoms + ["not " + a for a in atoms]
 
@@ -80,13 +97,13 @@ def run(ctx):
     lists += [["range(t1, t3)", "not range(t2, t2)", "cron(no)"], ["not range(t2, t2)", "range(t1, t3)", "cron(no)"], ["cron(no)", "not cron(no)", "range(t3, t1)"]]
     for specs in lists:
         bad = None
-        for now in range(0, 5):
+        for now in INSTANTS:
             got = _run_tac(program, specs, now)
             exp = [repr(Const(_reference(specs, now)))]
             if got != exp:
-                bad = f"at instant t{now}: result {got}, specified {exp}"
+                bad = f"at instant day {now // 1440} minute {now % 1440}: result {got}, specified {exp}"
                 break
-        ctx.check(bad is None, "R07.1", TAC, f"specs {specs} at t0..t4", msg=f"timer_active_check({specs}) {bad}", key=f"active check {specs}", node=program.func(TAC), rel="trigger.py")
+        ctx.check(bad is None, "R07.1", TAC, f"specs {specs} at {len(INSTANTS)} instants on days 0..2", msg=f"timer_active_check({specs}) {bad}", key=f"active check {specs}", node=program.func(TAC), rel="trigger.py")
 
     ctx.rule("R07.3", "every caller hands timer_active_check the decorator's complete specification list (mixed positive/negated lists decided as a whole)", floor=8)
     # legacy call site
@@ -172,6 +189,9 @@ def run(ctx):
               key="dispatch carries new_vars", node=st, rel="decorators/state.py")
     ctx.check("active_vars = State.notify_var_get(self.state_active_ident, new_vars)" in norm(tw) and "self.active_expr.eval(active_vars)" in norm(tw), "R07.6", "trigger.py::TrigInfo.trigger_watch",
               "legacy: evaluated on the notification's new_vars", msg="legacy trigger_watch no longer evaluates @state_active on the notification's new_vars", key="legacy state_active inputs", node=tw, rel="trigger.py")
+    ctx.rule("R07.9", "legacy loop: an occurrence taken from the queue is judged by @time_active at a clock reading made after it arrived (time triggers: at their own instant)", floor=2)
+    legacy_now_freshness(ctx, program, "R07.9")
+
     ctx.rule("R07.8", "@state_active lets an occurrence through exactly when its expression is truthy (Python truth of any value, not only the bool False), in both subsystems", floor=18)
     guard_truth_table(ctx, program, "R07.8")
     return (
@@ -259,3 +279,63 @@ def guard_truth_table(ctx, program, rid):
         ctx.check(runs == want, rid, uid, f"legacy: @state_active expression value {v!r}",
                   msg=f"legacy loop: a @state_active expression evaluating to {v!r} starts {sorted(runs)} run(s), specified {sorted(want)}",
                   key=f"legacy state_active value {v!r}", node=f, rel="trigger.py")
+
+
+def legacy_now_freshness(ctx, program, rid):
+    """One iteration of trigger_watch with an event notification, with and without a pending time trigger (the two wait branches)."""
+    uid = "trigger.py::TrigInfo.trigger_watch"
+    note = ListV([Const("event"), DictV([(Const("trigger_type"), Const("event"))])], "tuple")
+    for timed in (False, True):
+        def deliver(cfg, out):
+            seen = cfg.heap.get("$got", Const(0)).v
+            if seen >= 1:
+                out.add("raise", cfg.set("$exc", ExcV("CancelledError", "end of scenario")))
+                return []
+            return [(cfg.hset("$got", Const(seen + 1)).emit(("call", "notification", (), (), 0)), note)]
+
+        def qget(interp, node, args, kwargs, cfg, out):
+            if isinstance(getattr(node, "_parent", None), ast.Call):   # the coroutine handed to asyncio.wait_for(...)
+                return [(cfg, Sym(("coro",)))]
+            return deliver(cfg, out)
+
+        def dtnow(interp, node, args, kwargs, cfg, out):
+            n = cfg.heap.get("$clock", Const(0)).v + 1
+            v = Sym(("clock", n))
+            return [(cfg.hset("$clock", Const(n)).emit(("call", "clock", (v,), (), node.lineno)), v)]
+
+        def tac(interp, node, args, kwargs, cfg, out):
+            return [(cfg.emit(("call", "active_check", tuple(args), (), node.lineno)), Const(True))]
+
+        summ = {"self.notify_q.get": qget, "asyncio.wait_for": lambda i, n, a, k, c, o: deliver(c, o), "dt_now": dtnow, "TrigTime.timer_active_check": tac,
+                "TrigTime.timer_trigger_next": lambda i, n, a, k, c, o: [(c, ListV((Sym(("next",)), Sym(("adj",))), "tuple"))],
+                "Event.notify_add": lambda i, n, a, k, c, o: [(c, Const(True))], "State.notify_add": lambda i, n, a, k, c, o: [(c, Const(True))]}
+        pol = FlowPolicy(program, events=["self.call_action"], may_raise_all=False, cancel=False, summaries=summ)
+        pol.loop_unroll = 3
+        heap = {"self.state_trigger": NONE, "self.state_user_watch": NONE, "self.state_trig_eval": NONE, "self.state_trig_ident": NONE,
+                "self.state_trig_ident_any": ListV((), "set"), "self.active_expr": NONE, "self.event_trigger": ListV([Const("ev")]), "self.mqtt_trigger": NONE, "self.webhook_trigger": NONE,
+                "self.state_check_now": Const(False), "self.state_hold_false": NONE, "self.state_hold": NONE, "self.run_on_startup": Const(False),
+                "self.time_trigger": ListV([Const("once(x)")]) if timed else NONE, "self.event_trig_expr": NONE,
+                "self.have_trigger": Const(True), "self.time_active": ListV([Const("range(a, b)")]), "self.time_active_hold_off": NONE, "self.notify_q": ObjV("q", "Queue"),
+                "self.event_trigger_kwargs": DictV(()), "self.time_trigger_kwargs": DictV(()), "self.name": Const("file.x.f")}
+        out = run_flow(program, uid, pol, args={"self": ObjV("self", "TrigInfo")}, heap=heap)
+        bad = None
+        n_checks = 0
+        for kind, c, desc in exits(out):
+            evs = [e for e in c.trace if e[0] == "call"]
+            for i, e in enumerate(evs):
+                if e[1] != "active_check":
+                    continue
+                n_checks += 1
+                now = e[2][1] if len(e[2]) > 1 else None
+                notes = [j for j, x in enumerate(evs[:i]) if x[1] == "notification"]
+                reads = [j for j, x in enumerate(evs[:i]) if x[1] == "clock" and x[2] == (now,)]
+                if not notes:
+                    bad = "the guard is evaluated before any notification"
+                elif not reads:
+                    bad = f"the guard is evaluated at {now!r}, which is not a clock reading"
+                elif max(reads) < max(notes):
+                    bad = (f"the guard is evaluated at {now!r}, read before the notification arrived (line {evs[max(reads)][4]}): an event arriving while the task sleeps towards a "
+                           f"pending time trigger or hold is judged at the time the sleep began")
+        ctx.check(n_checks > 0 and bad is None, rid, uid, f"{'pending time trigger' if timed else 'no time trigger'}: now refreshed after the notification",
+                  msg=f"trigger_watch ({'with' if timed else 'without'} a pending time trigger): {bad or 'timer_active_check never reached'}", key=f"legacy now freshness timed={timed}",
+                  node=program.func(uid), rel="trigger.py")
